@@ -162,7 +162,7 @@ func (fc *FnCtx) heapGet(st *State, hv HeapVar) Term {
 }
 
 func (fc *FnCtx) heapSet(st *State, hv HeapVar, t Term) {
-	st.Heap[hv.Name] = fc.S.Define(hv.Name, t)
+	st.Heap[hv.Name] = fc.S.Name(hv.Name, t)
 }
 
 var nextVar = HeapVar{"$next", SInt, HGhost}
@@ -603,7 +603,7 @@ func (fc *FnCtx) mergeStates(conds []Term, sts []*State) *State {
 		for i := len(ts) - 2; i >= 0; i-- {
 			m = Ite(conds[i], ts[i], m)
 		}
-		n.Heap[k] = fc.S.Define(k, m)
+		n.Heap[k] = fc.S.Name(k, m)
 	}
 	return n
 }
@@ -624,7 +624,7 @@ func (fc *FnCtx) mergeVals(conds []Term, vs []Val) Val {
 		for i := len(vs) - 2; i >= 0; i-- {
 			m = Ite(conds[i], vs[i].T, m)
 		}
-		return tv(fc.S.Define("phi", m))
+		return tv(fc.S.Name("phi", m))
 	}
 	// identical structured values are fine
 	same := true
@@ -747,6 +747,7 @@ func (fc *FnCtx) enterLoop(li *loopInfo, st *State) {
 	li.Entry = st.clone()
 	env := fc.specEnv(st)
 	env.AtBlock = li.Header
+	env.Named["loop"] = li.Entry
 	// 1. invariants hold on entry
 	for _, cl := range li.Spec.Invariants {
 		parts := fc.evalClauseParts(env, cl)
@@ -842,7 +843,7 @@ func (fc *FnCtx) loopFrames(li *loopInfo, cur *State) []namedTerm {
 	ws, _, _ := fc.loopWrites(li)
 	nonFresh := fc.loopNonFreshWrites(li)
 	env := fc.specEnv(li.Entry)
-	env.AtBlock = nil
+	env.AtBlock = li.Header
 	locs := fc.locsOfExprs(li.Entry, env, li.Spec.Frame, li.Spec.FrameSrc, fmt.Sprintf("loop %d frame", li.Ordinal))
 	var out []namedTerm
 	for _, n := range sortedHeapNames(ws) {
@@ -972,6 +973,11 @@ func (fc *FnCtx) closeLoop(li *loopInfo, from *ssa.BasicBlock, st *State, cond T
 			fc.oblige(st2, site+".frame", f.Name, s, f.T, "of the objects existing at loop entry only "+strings.Join(li.Spec.FrameSrc, ", ")+" may change in "+f.Name)
 		}
 	}
+	// the back edge itself must be reachable, or the obligations above are vacuous
+	if len(li.Spec.Invariants) > 0 {
+		o := fc.oblige(st2, site+".canary", "", s, TFalse, "reachability of the back edge")
+		o.Canary = true
+	}
 	for phi, v := range saved {
 		fc.vals[phi] = v
 	}
@@ -1002,6 +1008,20 @@ func (fc *FnCtx) execBlock(b *ssa.BasicBlock, st *State) {
 
 func (fc *FnCtx) setEdge(from, to *ssa.BasicBlock, cond Term, st *State) {
 	cond = fc.S.Define("edge", cond)
+	// leaving a loop (to a block outside it, or to an enclosing loop's header): its exit clauses must hold
+	for _, li := range fc.loops {
+		if li.Blocks[from] && !li.Blocks[to] && li.Spec != nil && len(li.Spec.Ensures) > 0 && li.Entry != nil {
+			st2 := st.clone()
+			st2.PC = cond
+			env := fc.specEnv(st2)
+			env.AtBlock = li.Header
+			env.Named["loop"] = li.Entry
+			site := fmt.Sprintf("loop%d", li.Ordinal)
+			for _, cl := range li.Spec.Ensures {
+				fc.oblige(st2, site+".ensures", cl.Label, "", fc.evalClause(env, cl), cl.Src)
+			}
+		}
+	}
 	if fc.backEdge[[2]*ssa.BasicBlock{from, to}] {
 		fc.closeLoop(fc.loops[to], from, st, cond)
 		return
